@@ -50,7 +50,7 @@ func (c *TableCell) WriteHTMLTo(w io.Writer) (int64, error) {
 	n := appendSprintf(w, `<%s scope="col"`, htmlTag)
 
 	if c.class != "" {
-		n += appendSprintf(w, ` class="%s"`, c.class)
+		n += appendSprintf(w, ` class="%s"`, escapeAttribute(c.class))
 	}
 
 	if c.noWrap {
@@ -58,7 +58,7 @@ func (c *TableCell) WriteHTMLTo(w io.Writer) (int64, error) {
 	}
 
 	if c.style != "" {
-		n += appendSprintf(w, ` style="%s"`, c.style)
+		n += appendSprintf(w, ` style="%s"`, escapeAttribute(c.style))
 	}
 
 	n += appendString(w, `>`)
